@@ -192,15 +192,14 @@ def labelled(cw):
 
 
 def c07_compare(cw_before, tabs_before, cw_after):
-    """None if cleaning was lossless in the sense of C07, else (kind, detail)."""
+    """None if cleaning was lossless in the sense of C07, else (kind, detail).
+    Reading order is compared on the body text (words outside references) and inside every reference
+    separately: a reference's text is a footnote, its position in the reading order is that of the note."""
     a = labelled(cw_before)
     b = labelled(cw_after)
     wa = [x[0] for x in a]
     wb = [x[0] for x in b]
-    if wa != wb:
-        sa, sb = sorted(wa), sorted(wb)
-        if sa == sb:
-            return ("order", "visible words reordered")
+    if sorted(wa) != sorted(wb):
         from collections import Counter
         ca, cb = Counter(wa), Counter(wb)
         lost = sorted((ca - cb).elements())
@@ -208,15 +207,50 @@ def c07_compare(cw_before, tabs_before, cw_after):
         if lost:
             return ("word-lost", "words lost: %r" % lost[:8])
         return ("word-duplicated", "words added/duplicated: %r" % added[:8])
-    for x, y in zip(a, b):
+    body_a = [x for x in a if not x[3]]
+    body_b = [x for x in b if not x[3]]
+    if [x[0] for x in body_a] != [x[0] for x in body_b]:
+        if sorted(x[0] for x in body_a) != sorted(x[0] for x in body_b):
+            return ("reference", "words moved between body text and a reference")
+        return ("order", "visible words of the body text reordered")
+    for x, y in zip(body_a, body_b):
         if x[1] != y[1]:
             return ("section", "word %d: section label %d -> %d" % (x[0], x[1], y[1]))
         if x[2] != y[2]:
             return ("list-depth", "word %d: item depth %d -> %d" % (x[0], x[2], y[2]))
-        if x[3] != y[3]:
-            return ("reference", "word %d: reference label %d -> %d" % (x[0], x[3], y[3]))
+    refs_a, refs_b = {}, {}
+    for x in a:
+        if x[3]:
+            refs_a.setdefault(x[3], []).append(x[0])
+    for x in b:
+        if x[3]:
+            refs_b.setdefault(x[3], []).append(x[0])
+    if refs_a != refs_b:
+        return ("reference", "the words of a reference changed: %r -> %r" % (sorted(refs_a.items())[:3], sorted(refs_b.items())[:3]))
     big = {t for t, (r, c) in tabs_before.items() if r >= 2 and c >= 2}
-    for (w, _s, _d, _r, tb), (_w2, _s2, _d2, _r2, ta) in zip(cw_before, cw_after):
-        if tb in big and ta == 0:
+    after_tbl = {}
+    for w, _s, _d, _r, ta in cw_after:
+        after_tbl.setdefault(w, []).append(ta)
+    for w, _s, _d, _r, tb in cw_before:
+        if tb in big and any(t == 0 for t in after_tbl.get(w, [])):
             return ("table-dissolved", "word %d was in a table with >=2 rows and >=2 columns and is in no table afterwards" % w)
     return None
+
+
+def digest(root, cells, cycle=False):
+    """[wf, contract, crc of cwords, crc of table dims] according to the Python reading (for the cross-check)"""
+    import zlib
+    if cycle or py_wf(root, cells) is not None:
+        return [0, 0, 0, 0]
+    cw = py_cwords(root, cells)
+    tb = sorted(py_tables(root, cells).items())
+    return [1, 1 if py_contract(root, cells) is None else 0, zlib.crc32(repr([tuple(x) for x in cw]).encode()),
+            zlib.crc32(repr([(k, tuple(v)) for k, v in tb]).encode())]
+
+
+def digest_model(wf, contract, cw, tabs):
+    import zlib
+    if not wf:
+        return [0, 0, 0, 0]
+    return [1, 1 if contract else 0, zlib.crc32(repr([tuple(x) for x in cw]).encode()),
+            zlib.crc32(repr([(k, tuple(v)) for k, v in sorted(tabs.items())]).encode())]
